@@ -212,9 +212,11 @@ pub mod shims {
         #[verifier::external_body] fn eq(&self, other: &structs::Challenge) -> (r: bool) { unimplemented!() }
     }
     pub struct HttpError { pub x: u8 }
+    pub uninterp spec fn err_is(e: HttpError, a: structs::AcmeError) -> bool;
     impl HttpError {
         #[verifier::external_body] pub fn in_err(e: HttpError) -> Error { unimplemented!() }
-        #[verifier::external_body] pub fn is_acme_err(&self, a: structs::AcmeError) -> bool { unimplemented!() }
+        // (verified in unit http: an ACME problem document of exactly that type)
+        #[verifier::external_body] pub fn is_acme_err(&self, a: structs::AcmeError) -> (r: bool) ensures r == err_is(*self, a) { unimplemented!() }
     }
     pub mod serde_json {
         use vstd::prelude::*;
